@@ -69,7 +69,13 @@ pub struct RunOutcome { pub trace: Vec<(usize, &'static str)>, pub enabled_count
 
 
 /// Run `bodies` (one per thread) under the scheduler; `choose(step, enabled)` picks the index into `enabled`.
-pub fn run_scheduled(bodies: Vec<Box<dyn FnOnce() + Send>>, observer: Option<Box<dyn Fn() -> usize + Send + Sync>>, mut choose: impl FnMut(usize, &[usize]) -> usize) -> RunOutcome {
+pub fn run_scheduled(bodies: Vec<Box<dyn FnOnce() + Send>>, observer: Option<Box<dyn Fn() -> usize + Send + Sync>>, choose: impl FnMut(usize, &[usize]) -> usize) -> RunOutcome {
+    run_scheduled_limit(bodies, observer, choose, 20)
+}
+
+/// `limit_s`: wall-clock patience per scheduling step. A step that exceeds it is only a *suspected* deadlock (the machine may be
+/// overloaded): callers confirm it by re-executing the same choices (`confirm_stall`) before reporting anything.
+pub fn run_scheduled_limit(bodies: Vec<Box<dyn FnOnce() + Send>>, observer: Option<Box<dyn Fn() -> usize + Send + Sync>>, mut choose: impl FnMut(usize, &[usize]) -> usize, limit_s: u64) -> RunOutcome {
     let n = bodies.len();
     let sched = Sched::new(n);
     *sched.observer.lock().unwrap() = observer;
@@ -100,7 +106,7 @@ pub fn run_scheduled(bodies: Vec<Box<dyn FnOnce() + Send>>, observer: Option<Box
             if !busy { break; }
             let (g2, to) = sched.cv.wait_timeout(g, Duration::from_millis(200)).unwrap();
             g = g2;
-            if to.timed_out() && t0.elapsed() > Duration::from_secs(20) { deadlock = true; break; }
+            if to.timed_out() && t0.elapsed() > Duration::from_secs(limit_s) { deadlock = true; break; }
         }
         if deadlock { break; }
         let enabled: Vec<usize> = (0..n).filter(|&i| matches!(g.st[i], St::Parked(_))).collect();
@@ -118,6 +124,18 @@ pub fn run_scheduled(bodies: Vec<Box<dyn FnOnce() + Send>>, observer: Option<Box
     let observations = std::mem::take(&mut sched.inner.lock().unwrap().observations);
     let panics = std::mem::take(&mut *panics.lock().unwrap());
     RunOutcome { trace, enabled_counts: counts, deadlock, panics, observations }
+}
+
+/// A scheduling step that made no progress within the wall-clock patience is a suspected deadlock. The verdict is taken on
+/// logical grounds: a fresh instance is driven through the same choices (the recorded picks, thread by thread) with a patience
+/// of 120 s per step. A deadlock of the code under test is a property of the schedule and reproduces; a stall caused by an
+/// overloaded machine does not. Returns the outcome to judge: the confirming run (deadlock = true only if it stalled too).
+fn confirm_stall(make: &dyn Fn() -> Instance, first: &RunOutcome) -> (Instance, RunOutcome) {
+    let inst = make();
+    let picks: Vec<usize> = first.trace.iter().map(|t| t.0).collect();
+    let Instance { bodies, observer, check, max_requested } = inst;
+    let out = run_scheduled_limit(bodies, observer, |step, en| picks.get(step).and_then(|p| en.iter().position(|e| e == p)).unwrap_or(0), 120);
+    (Instance { bodies: vec![], observer: None, check, max_requested }, out)
 }
 
 /// Stateless DFS over scheduler choices: returns the next choice path, or None when exhausted.
@@ -283,7 +301,7 @@ fn rotation_plain_instance(spec: &Spec, roles: &[(bool, usize)], pk_ct: &Arc<Cip
 /// checks common to every execution: no panic, no deadlock, per-thread monotone cache observations
 fn common_checks(out: &RunOutcome, max_requested: Option<usize>) -> Vec<(String, String)> {
     let mut v = vec![];
-    if out.deadlock { v.push(("schedule|deadlock".to_string(), format!("no progress for 20 s after trace {:?}", out.trace))); }
+    if out.deadlock { v.push(("schedule|deadlock".to_string(), format!("no progress at a scheduling step, twice: 20 s, then 120 s on a fresh instance driven through the same choices; trace {:?}", out.trace))); }
     for (tid, msg) in &out.panics { v.push((format!("thread|panic"), format!("thread {} panicked: {}", tid, msg))); }
     // the cache only grows: globally in scheduler mode (observations are totally ordered), hence also per thread
     let mut last = 0usize;
@@ -435,7 +453,10 @@ fn controlled(cfg: &Cfg, rep: &mut Report) {
                 loop {
                     let inst = (sc.make)();
                     let p = path.clone();
-                    let out = run_scheduled(inst.bodies, inst.observer, |step, _en| *p.get(step).unwrap_or(&0));
+                    let Instance { bodies, observer, check, max_requested } = inst;
+                    let mut out = run_scheduled(bodies, observer, |step, _en| *p.get(step).unwrap_or(&0));
+                    let mut inst = Instance { bodies: vec![], observer: None, check, max_requested };
+                    if out.deadlock { let (i2, o2) = confirm_stall(&*sc.make, &out); rep.count("suspected_stalls_re_executed", if o2.deadlock { "reproduced" } else { "completed_on_re_execution" }); inst = i2; out = o2; }
                     executed += 1; rep.evals(1);
                     distinct.insert(fnv_trace(&out.trace));
                     let mut problems = common_checks(&out, inst.max_requested);
@@ -451,7 +472,10 @@ fn controlled(cfg: &Cfg, rep: &mut Report) {
                     for _ in 0..cfg.pick(800, 10000) {
                         let inst = (sc.make)();
                         let mut r2 = Rng::new(rng.u64());
-                        let out = run_scheduled(inst.bodies, inst.observer, |_s, en| r2.usize_below(en.len()));
+                        let Instance { bodies, observer, check, max_requested } = inst;
+                        let mut out = run_scheduled(bodies, observer, |_s, en| r2.usize_below(en.len()));
+                        let mut inst = Instance { bodies: vec![], observer: None, check, max_requested };
+                        if out.deadlock { let (i2, o2) = confirm_stall(&*sc.make, &out); rep.count("suspected_stalls_re_executed", if o2.deadlock { "reproduced" } else { "completed_on_re_execution" }); inst = i2; out = o2; }
                         random_runs += 1; rep.evals(1);
                         distinct.insert(fnv_trace(&out.trace));
                         let mut problems = common_checks(&out, inst.max_requested);
@@ -526,7 +550,9 @@ pub fn stress(cfg: &Cfg, rep: &mut Report, iterations: usize) {
                     // deadlock watchdog (bounded progress)
                     let t0 = Instant::now();
                     let mut deadlock = false;
-                    { let mut g = done.0.lock().unwrap(); while *g < nthreads { let (g2, _) = done.1.wait_timeout(g, Duration::from_millis(500)).unwrap(); g = g2; if t0.elapsed() > Duration::from_secs(30) { deadlock = true; break; } } }
+                    { // decided on logical progress: no hook event and no thread end for 60 s (and at least 30 s since the start); a loaded machine still makes progress
+                      let mut g = done.0.lock().unwrap(); let (mut last_len, mut last_done, mut last_progress) = (0usize, 0usize, Instant::now());
+                      while *g < nthreads { let (g2, _) = done.1.wait_timeout(g, Duration::from_millis(500)).unwrap(); g = g2; let l = order.lock().unwrap().len(); if l != last_len || *g != last_done { last_len = l; last_done = *g; last_progress = Instant::now(); } if t0.elapsed() > Duration::from_secs(30) && last_progress.elapsed() > Duration::from_secs(60) { deadlock = true; break; } } }
                     if !deadlock { for h in hs { let _ = h.join(); } }
                     let trace = order.lock().unwrap().clone();
                     hook_orders.insert(fnv_trace(&trace));
@@ -534,7 +560,7 @@ pub fn stress(cfg: &Cfg, rep: &mut Report, iterations: usize) {
                     let mut problems = vec![];
                     let log = obs_log.lock().unwrap().clone();
                     for tid in 0..nthreads { let mut last = 0; for (t, site, l) in &log { if *t == tid { if *l < last { problems.push(("cache|shrunk".to_string(), format!("thread {} saw the cache shrink from {} to {} at {}", tid, last, l, site))); } last = *l; } } }
-                    if deadlock { problems.push(("stress|deadlock".to_string(), "threads did not finish within 30 s".to_string())); }
+                    if deadlock { problems.push(("stress|deadlock".to_string(), "no hook event and no thread end for 60 s".to_string())); }
                     for (tid, msg) in panics.lock().unwrap().iter() { problems.push(("thread|panic".to_string(), format!("thread {} panicked: {}", tid, msg))); }
                     let out = RunOutcome { trace: trace.clone(), enabled_counts: vec![], deadlock, panics: vec![], observations: vec![] };
                     if !deadlock { problems.extend((inst.check)(&out)); }
@@ -634,7 +660,7 @@ pub fn run(cfg: &Cfg, rep: &mut Report) -> PropMeta {
         id: "C17", level: "exploration",
         rule: "scenarios: one fresh shared Decryptor decrypting ciphertexts of sizes (2,3) (3,5) (3,3) (2,3,5) (5,3,2,4); one shared KeyGenerator with concurrent relin/Galois key generation and requests for key powers (2,3) (3,4) (4,2,3); one shared evaluator/context with concurrent Galois maps on a cold permutation-table cache (same / different elements, 2-4 threads). (A) every interleaving of the hooked yield points for 2 threads, bounded DFS + seeded random schedules for 3-4 threads; (B) real-parallel stress with random micro-delays at the hook sites; (C) the stress workload in a ThreadSanitizer build (thorough: a 2-thread scenario under Miri with several seeds). distinct = distinct schedules (hash of the release sequence) + distinct hook-order signatures seen under stress. Five further evaluator scenarios race ciphertext rotations with plaintext-side automorphisms (apply_galois_plain* on an NTT-form plaintext) of the same / another element through the shared permutation-table cache",
         assumptions: vec!["yield points sit only where the library holds no lock, so serialising threads there cannot create interleavings the program cannot have".into(),
-            "deadlock is decided as bounded progress: no thread reaches a yield point or its end within 20 s (scheduler) / 30 s (stress)".into(),
+            "deadlock is decided as bounded progress: scheduler: a step without progress for 20 s is re-executed on a fresh instance with the same choices and 120 s patience per step, and reported only if it stalls again; stress: no hook event and no thread end for 60 s".into(),
             "interleavings inside a lock phase are not enumerated; ThreadSanitizer / Miri cover data races there, not orderings".into(),
             "Miri runs with alignment and stacked-borrows checks off (unrelated findings outside this property)".into()],
         exhaustive: false, floor: 200,
